@@ -104,7 +104,7 @@ class Ctx:
         return ["java", "-XX:+UseParallelGC", "-Xmx8g", "-Xmn384m", "-Xss64m", "-cp", TLA_CP, "tlc2.TLC",
                 "-workers", str(workers), "-metadir", md, "-config", cfg + ".cfg"] + list(extra) + [module + ".tla"]
 
-    def run_tlc(self, name, module, cfg, replay=True, workers=None, timeout=1800, reps=1, extra=(), env=None):
+    def run_tlc(self, name, module, cfg, replay=True, workers=None, timeout=1800, reps=1, extra=(), env=None, replay_args=()):
         """Run TLC; pipe its stdout into `harness replay` (records are lines starting with "{ ).
         Returns dict(states, distinct, log, summary)."""
         workers = workers or NCPU
@@ -118,7 +118,7 @@ class Ctx:
                               stderr=subprocess.STDOUT, env=e)
         rp = subprocess.Popen([self.harness, "replay", "-prop", self.prop, "-log", logp, "-out", sump,
                                "-seed", str(self.seed), "-workers", str(NCPU), "-reps", str(reps)]
-                              + (["-allvariants"] if self.tier == "thorough" else []),
+                              + (["-allvariants"] if self.tier == "thorough" else []) + list(replay_args),
                               stdin=tl.stdout, stdout=subprocess.PIPE, stderr=subprocess.PIPE)
         tl.stdout.close()
         try:
